@@ -201,6 +201,7 @@ static void ev_fdpath(struct ev *e, int fd)
   snprintf(l, sizeof l, "/proc/self/fd/%d", fd);
   n = readlink(l, b, sizeof b - 1);
   if (n > 0) { b[n] = 0; ev_path(e, "path", b); }
+  { struct stat st; if (fstat(fd, &st) == 0) { ev_int(e, "ino", st.st_ino); ev_int(e, "size", st.st_size); } }
 }
 static void ev_emit(struct ev *e, int to_gate)
 {
